@@ -72,11 +72,19 @@ class World:
         self.objs = [A(np.array([3.0, 1.0, 2.0]), unit="m"), A(np.array([20.0, 30.0, 10.0]), unit="s"),
                      A(np.array([7.0, 5.0]), unit="m"), A(9.0, unit="m"),
                      V(np.array([100.0, 300.0, 200.0]), np.array([4.0, 6.0, 5.0]), unit="cm"),
-                     A(np.array([2, 0, 1], dtype=np.int64)), A(np.array([300.0, 100.0, 200.0]), unit="cm")]
+                     A(np.array([2, 0, 1], dtype=np.int64)), A(np.array([300.0, 100.0, 200.0]), unit="cm"),
+                     A(np.array([6.0, 2.0, 4.0], dtype=np.float32), unit="m")]
+        self.maskbuf = np.zeros(3, dtype=bool)        # one mask buffer reused (rewritten in place) by every mask index of length 3
         self.groups = [osyris.Datagroup(), osyris.Datagroup()]
         self.dsets = [osyris.Dataset()]
         self.res = {"t": "none"}
         self.nstep = 0
+
+    def index_obj(self, kind, n):
+        if n == 3 and kind in ("mask", "maskNone", "maskArr"):
+            self.maskbuf[:] = [True, False, True] if kind != "maskNone" else [False, False, False]
+            return self.osyris.Array(self.maskbuf) if kind == "maskArr" else self.maskbuf
+        return index_object(kind, n)
 
     # ---- identity binding
     def oid(self, obj):
@@ -159,7 +167,7 @@ class World:
             elif op == "index":
                 g = G[a["g"] - 1]
                 n = len(next(iter(g.values()))) if len(g) else 0
-                r = g[index_object(a["kind"], n)]
+                r = g[self.index_obj(a["kind"], n)]
                 mem = {}
                 for k, v in r.items():
                     mem[k] = {"kind": "vec" if isinstance(v, self.osyris.Vector) else "arr", "scalar": v.shape == (),
@@ -169,7 +177,7 @@ class World:
             elif op == "slice":
                 o = O[a["o"] - 1]
                 n = len(o)
-                self.res = {"t": "obj", "o": self.oid(o[index_object(a["kind"], n)])}
+                self.res = {"t": "obj", "o": self.oid(o[self.index_obj(a["kind"], n)])}
             elif op == "ocopy":
                 o = O[a["o"] - 1]
                 new = o.copy() if a["how"] == "copy" else (copy.deepcopy(o) if self.nstep % 2 else copy.copy(o))
@@ -311,14 +319,14 @@ def spec_view(st):
             "dss": [{"keys": list(d["keys"]), "val": list(d["val"]), "meta": list(d["meta"])} for d in st["dss"]], "res": res}
 
 
-def values_equal(spec, impl):
+def values_equal(spec, impl, tol=F(1, 10 ** 12)):
     """spec: Fraction, impl: float/int from numpy"""
     if isinstance(impl, bool):
         return spec == int(impl)
     if spec == impl:
         return True
     try:
-        return abs(F(impl) - spec) <= F(1, 10 ** 12) * max(abs(spec), 1)
+        return abs(F(impl) - spec) <= tol * max(abs(spec), 1)
     except (ValueError, OverflowError):
         return False
 
@@ -334,7 +342,8 @@ def compare(spec, impl):
         if len(s["v"]) != len(m["v"]):
             return f"object {i + 1}: component count spec {len(s['v'])} != impl {len(m['v'])}"
         for c, (sv, mv) in enumerate(zip(s["v"], m["v"])):
-            if len(sv) != len(mv) or not all(values_equal(a, b) for a, b in zip(sv, mv)):
+            tol = F(1, 10 ** 6)       # a float32 object lives in the pool: values that passed through it carry float32 rounding
+            if len(sv) != len(mv) or not all(values_equal(a, b, tol) for a, b in zip(sv, mv)):
                 return f"object {i + 1} component {c + 1} values: spec {[float(x) for x in sv]} != impl {mv}"
     if spec["share"] != impl["share"]:
         for i, (a, b) in enumerate(zip(spec["share"], impl["share"])):
@@ -377,7 +386,8 @@ def compare_res(s, m):
             if len(a["c"]) != len(b["c"]):
                 return f"result member {k}: component count"
             for c, (sv, mv) in enumerate(zip(a["c"], b["c"])):
-                if len(sv) != len(mv) or not all(values_equal(x, y) for x, y in zip(sv, mv)):
+                tol = F(1, 10 ** 6)
+                if len(sv) != len(mv) or not all(values_equal(x, y, tol) for x, y in zip(sv, mv)):
                     return f"result member {k} component {c + 1} rows: spec {[float(x) for x in sv]} != impl {mv}"
         return None
     for f in s:
